@@ -175,6 +175,10 @@ func doCheck(prop, tier, repo, verif, only string, dump bool, timeoutS, seed int
 			if hasProp(o.Props, "unclaimed") && tier != "thorough" && only == "" {
 				continue
 			}
+			if hasProp(o.Props, "bounded") && o.Kind == "post" {
+				jobs = append(jobs, &oblResult{O: o, Fn: fr, Cls: "bounded"})
+				continue
+			}
 			jobs = append(jobs, &oblResult{O: o, Fn: fr})
 		}
 	}
@@ -199,6 +203,9 @@ func doCheck(prop, tier, repo, verif, only string, dump bool, timeoutS, seed int
 			defer wg.Done()
 			sem <- struct{}{}
 			defer func() { <-sem }()
+			if j.Cls == "bounded" {
+				return // executed against the real code in report()
+			}
 			solveObligation(j, smtDir, timeoutS, tier == "thorough", seed)
 		}(j)
 	}
@@ -269,6 +276,8 @@ func writeClaims(verif, prop string, out *checkOutcome) int {
 	bad := 0
 	for _, r := range out.results {
 		switch r.Cls {
+		case "bounded":
+			names = append(names, r.O.Name)
 		case "discharged", "cover-ok", "canary-live":
 			// only obligations that discharge comfortably inside the quick budget are claimed (DESIGN §4.3)
 			if r.R.Time > 5.0 {
@@ -334,6 +343,7 @@ func report(prop, tier, repo, verif string, seed int, out *checkOutcome, partial
 	os.MkdirAll(replayDir, 0o755)
 	seen := map[string]bool{}
 	nViol := 0
+	boundedOK = nil
 	var lines []string
 	violation := func(o string, file string, noInput bool) {
 		nViol++
@@ -390,6 +400,22 @@ func report(prop, tier, repo, verif string, seed int, out *checkOutcome, partial
 			total++
 			file, confirmed := replayViolation(replayDir, prop, r, repo, verif)
 			violation(r.O.Name, file, !confirmed)
+		case "bounded":
+			// a bounded stand-in: the clause is executed against the real function on an enumerated input
+			// space; it is never counted as proved
+			file, failed := replayViolation(replayDir, prop, r, repo, verif)
+			cases := replayCases[r.O.Name]
+			if failed {
+				total++
+				violation(r.O.Name, file, false)
+			} else if cases == 0 {
+				// the stand-in could not run: treat like an undecided claimed obligation
+				total++
+				violation(r.O.Name, file, true)
+			} else {
+				boundedOK = append(boundedOK, map[string]any{"obligation": r.O.Name, "clause": r.O.Clause, "cases": cases,
+					"bound": "160 candidate inputs per run: strings from the function's literals and a fixed pool, small ints, slices of length <= 2; seeded by VERIF_SEED"})
+			}
 		case "undecided":
 			total++
 			if !haveClaims || claimed[r.O.Name] {
@@ -555,6 +581,7 @@ func writeEvidence(prop, tier, verif string, seed int, out *checkOutcome, perObl
 		"trusted_base": trustedBase, "functions_under_contract": fns, "per_obligation": perObl,
 		"solver_time_s": round3(solverTime), "discharged_by_solver": bySolver, "samples": samples,
 		"translation_failures": translationFailures,
+		"bounded_standins":     boundedOK,
 	}
 	if total == 0 || discharged == 0 {
 		level = "other"
